@@ -41,7 +41,8 @@ def record_driver(wd, tier, seed, traces, streams=None, mutants=None, maxlen=Non
     q = tier == "quick"
     args = ["deflate-record", "--seed", seed, "--streams", streams or (120 if q else 1500),
             "--maxlen", maxlen or (60000 if q else 300000), "--mutants", mutants if mutants is not None else 3,
-            "--samples", 1, "--out", res, "--threads", 14, "--sweeps", 8 if q else 64, "--window", 48 if q else 160]
+            "--samples", 1, "--out", res, "--threads", 14, "--sweeps", 8 if q else 64, "--window", 48 if q else 160,
+            "--corpus", os.path.join(VERIF, "corpus", "deflate")]
     if traces:
         args += ["--trace", tr, "--traces", traces, "--tracemax", tracemax or (20000 if q else 120000)]
     vh(args, ok_codes=(0, 3))
